@@ -64,6 +64,12 @@ def payloads(rng, tier):
             base = rng.choice(["AC", "ACGT", "AT", "CG"])
             st = (base * (ln // len(base) + 1))[:ln] if rng.random() < 0.5 else "".join(rng.choice(NUC) for _ in range(ln))
             yield "set_vt", {"s": st, "n": vt}
+    # strands whose ascent-position sum exceeds 2^32 (from about 107 000 nt on), with checks longer than 17 symbols (4^17 = 2^34
+    # divides nothing a 32-bit accumulator could hide): the position sum must be taken in unbounded integers
+    for ln in ([130000, 180000] if tier != "search" else [130000]):
+        for vt in (18, 40):
+            st = ("ACGT" * (ln // 4 + 1))[:ln] if vt == 18 else "".join(rng.choice(NUC) for _ in range(ln))
+            yield "set_vt", {"s": st, "n": vt}
     for _ in range(n):
         yield "set_vt", {"s": strand(rng, maxlen), "n": rng.choice([1, 1, 2, 3, 5, 8, 16, 32, 33, 34, 40, rng.randint(1, 70)])}
     for _ in range(n // 30):
